@@ -300,7 +300,8 @@ OnImg == /\ Line.ev = "img"
 OnFaultOp == /\ Line.ev = "op" /\ sc.mode = "fault"
              /\ LET f2 == IF Line.fault.hit THEN FmFaulted(fm, Line.op)
                           ELSE IF Line.res.ok THEN FmLater(fm, Line.op, Line.res) ELSE FmFaulted(fm, Line.op) IN
-                /\ Report(FaultFails(f2, Line))
+                \* C20 speaks of every instant of every history: also after a failed call the log on disk is well-formed
+                /\ Report(FaultFails(f2, Line) \cup WellFormedFails(DiskOfJson(Line.obs.disk), m.n) \cup BlobFails(Line.obs.disk))
                 /\ fm' = f2
              /\ UNCHANGED <<m, pobs, sc>>
 
